@@ -80,6 +80,16 @@ func depEnv() []AImp {
 var scalarKinds = []int{1, 2, 3, 4, 5, 6, 7, 8, 9, 12, 13, 15, 16, 17, 18}
 
 func scalarDefault(r *rand.Rand, k int) string {
+	// an explicit default equal to the zero value is still a declared default (HasDefault)
+	if r.IntN(3) == 0 {
+		switch k {
+		case 8:
+			return "false"
+		case 9, 12:
+			return ""
+		}
+		return "0"
+	}
 	switch k {
 	case 1, 2:
 		return []string{"0", "1.5", "-2", "inf", "-inf", "nan", "3.5"}[r.IntN(7)]
@@ -222,6 +232,13 @@ func GenFile(r *rand.Rand) *AFile {
 				n.m.RR = append(n.m.RR, [2]int{99, 100})
 			}
 			n.m.RN = append(n.m.RN, "rsv", "other_rsv")
+		}
+		// reserved ranges that touch an extension range on either side (no number in common: valid)
+		if len(n.m.XR) > 0 && g.p(1, 3) {
+			n.m.RR = append(n.m.RR, [2]int{2000, 2003})
+			if g.p(1, 2) {
+				n.m.RR = append(n.m.RR, [2]int{999, 1000})
+			}
 		}
 		path = append(path, n)
 		g.all = append(g.all, n)
